@@ -707,3 +707,34 @@ var concProp = h.Define(P, "concurrent", func(t *rapid.T) ConcCase {
 }, runConc)
 
 func TestConcurrentConversions(t *testing.T) { concProp.Check(t) }
+
+// TestPrefixTwins: two RSA keys whose encodings share a long prefix (keys.RSATwinIdx) converted one after the
+// other, in both orders and repeatedly: each DID yields its own key, and the DIDs are unequal.
+func TestPrefixTwins(t *testing.T) {
+	ctx := &h.Ctx{P: P, T: t}
+	a, b := keys.Get(keys.RSA, 0), keys.Get(keys.RSA, keys.RSATwinIdx)
+	if a.DID == b.DID {
+		ctx.Fail("C16/equality/twins-equal", "two different RSA keys have equal DIDs")
+	}
+	for round := 0; round < 3; round++ {
+		for _, order := range [][2]*keys.Key{{b, a}, {a, b}} {
+			for _, k := range order {
+				P.Eval()
+				d, err := did.Parse(k.DID.String())
+				if err != nil || d != k.DID {
+					ctx.Fail("C16/parse/rejects-valid", "Parse(%s): %v", k.DID, err)
+					continue
+				}
+				pk, err := d.PubKey()
+				if err != nil || !pk.Equals(k.Priv.GetPublic()) {
+					ctx.Fail("C16/roundtrip/pubkey-differs/rsa-prefix-twin", "after converting its prefix twin, %s yields another key (err=%v)", k.DID, err)
+				}
+				if pk2, err := did.ToPubKey(k.DID.String()); err != nil || !pk2.Equals(k.Priv.GetPublic()) {
+					ctx.Fail("C16/roundtrip/pubkey-differs/rsa-prefix-twin", "ToPubKey(%s) yields another key (err=%v)", k.DID, err)
+				}
+			}
+		}
+	}
+	P.AddDistinct(12)
+	P.Class("prefix-twins")
+}
